@@ -196,24 +196,31 @@ def enumerate_records() -> Dict:  # noqa: WPS231
                     results.append({"id": "%s %s" % (level, act), "entry_point": "read_contracts_from_file", "verdict": res["verdict"], "how": res["how"],
                                     "where": res.get("where"), "file_text": fs.files["bad.json"],
                                     "key": "E3 read_contracts_from_file whole-%s %s -> %s" % (level, act, res["how"])})
-    # a file with two entries, the first one valid: corruptions of the second entry must still reject the file
+    # files with two entries, one valid and one corrupted, in either order, with distinct names and with the SAME name:
+    # whatever the layout, the reader must reject the file
     first = base_contracts()[0]
     second = base_contracts()[2]
     for machine in (True, False):
-        fileio.write_contracts_to_file([first[1], second[1]], [first[0], second[0]], "pair.json", machine_representation=machine)
-        data = json.loads(fs.files["pair.json"])
-        entry = data[1]
-        for path, action, bad in corruptions(entry):
-            n_cases += 1
-            role = node_role(path)
-            act = action[0] if action[0] == "delete" else "to_" + action[2] + (":numeric" if action[1] == "7" else "")
-            fs.files["bad.json"] = json.dumps([data[0], bad], indent=2)
-            res = classify(fileio.read_contracts_from_file, "bad.json")
-            by_verdict[res["verdict"]] = by_verdict.get(res["verdict"], 0) + 1
-            if res["verdict"] != "rejected":
-                results.append({"id": "second-entry %s/%s %s" % (entry["type"], role, act), "entry_point": "read_contracts_from_file", "verdict": res["verdict"],
-                                "how": res["how"], "where": res.get("where"), "corrupted_entry": bad, "file_text": fs.files["bad.json"],
-                                "key": "E3 read_contracts_from_file second-entry %s/%s %s -> %s" % (entry["type"], role, act, res["how"])})
+        for layout in ("valid-first", "corrupt-first"):
+            for naming in ("distinct", "same"):
+                names2 = [first[0], second[0]] if naming == "distinct" else ["same", "same"]
+                fileio.write_contracts_to_file([first[1], second[1]], names2, "pair.json", machine_representation=machine)
+                data = json.loads(fs.files["pair.json"])
+                entry = data[1]
+                for path, action, bad in corruptions(entry):
+                    if naming == "same" and path == ("name",):
+                        continue
+                    n_cases += 1
+                    role = node_role(path)
+                    act = action[0] if action[0] == "delete" else "to_" + action[2] + (":numeric" if action[1] == "7" else "")
+                    doc2 = [data[0], bad] if layout == "valid-first" else [bad, data[0]]
+                    fs.files["bad.json"] = json.dumps(doc2, indent=2)
+                    res = classify(fileio.read_contracts_from_file, "bad.json")
+                    by_verdict[res["verdict"]] = by_verdict.get(res["verdict"], 0) + 1
+                    if res["verdict"] != "rejected":
+                        results.append({"id": "two-entry(%s,%s names) %s/%s %s" % (layout, naming, entry["type"], role, act), "entry_point": "read_contracts_from_file",
+                                        "verdict": res["verdict"], "how": res["how"], "where": res.get("where"), "corrupted_entry": bad, "file_text": fs.files["bad.json"],
+                                        "key": "E3 read_contracts_from_file two-entry(%s,%s) %s/%s %s -> %s" % (layout, naming, entry["type"], role, act, res["how"])})
     return {"cases": n_cases, "by_verdict": by_verdict, "failures": results, "samples": samples}
 
 
